@@ -10,14 +10,15 @@ namespace PPrint
 section ind
 set_option linter.unusedSectionVars false
 variable {P : J → Prop}
-  (hs : ∀ s, P (.str s)) (hn : ∀ t, P (.num t)) (hk : ∀ k, P (.kw k))
+  (hs : ∀ s, P (.str s)) (hi : ∀ n, P (.int n)) (hn : ∀ t, P (.num t)) (hk : ∀ k, P (.kw k))
   (hl : ∀ xs, (∀ x, x ∈ xs → P x) → P (.list xs))
   (hd : ∀ kvs : List (List Char × J), (∀ kv, kv ∈ kvs → P kv.2) → P (.dict kvs))
-include hs hn hk hl hd
+include hs hi hn hk hl hd
 
 mutual
 theorem J.ind : ∀ v, P v
   | .str s => hs s
+  | .int n => hi n
   | .num t => hn t
   | .kw k => hk k
   | .list xs => hl xs (J.indList xs)
@@ -83,6 +84,7 @@ theorem gen_of_simple (c : Consts) (L : Limits) {v : J} {s : Simple} (h : v.simp
     (off : Nat) : gen c L v off = [some (simpleChunk c s)] := by
   cases v with
   | str _ => simp [J.simple?] at h; subst h; simp [gen]
+  | int _ => simp [J.simple?] at h; subst h; simp [gen]
   | num _ => simp [J.simple?] at h; subst h; simp [gen]
   | kw _ => simp [J.simple?] at h; subst h; simp [gen]
   | list xs =>
@@ -289,10 +291,12 @@ theorem sortE_strict {α : Type} (l : List (List Char × α)) (hnd : (l.map (·.
 
 /-! ## text and lines -/
 
+@[simp] theorem plain_text (t : List Char) : (plain t).text = t := rfl
+@[simp] theorem plain_kind (t : List Char) : (plain t).kind = .text := rfl
 @[simp] theorem text_nil : text [] = [] := rfl
 @[simp] theorem text_none (r : List (Option Chunk)) : text (none :: r) = '\n' :: text r := rfl
 @[simp] theorem text_some (ch : Chunk) (r : List (Option Chunk)) :
-    text (some ch :: r) = ch ++ text r := rfl
+    text (some ch :: r) = ch.text ++ text r := rfl
 
 theorem text_append (a b : List (Option Chunk)) : text (a ++ b) = text a ++ text b := by
   induction a with
@@ -300,7 +304,7 @@ theorem text_append (a b : List (Option Chunk)) : text (a ++ b) = text a ++ text
   | cons x r ih => cases x <;> simp [ih]
 
 theorem joinLines_cons (l : List Chunk) (ls : List (List Chunk)) (h : ls ≠ []) :
-    joinLines (l :: ls) = l.flatten ++ '\n' :: joinLines ls := by
+    joinLines (l :: ls) = lineText l ++ '\n' :: joinLines ls := by
   cases ls with
   | nil => exact absurd rfl h
   | cons m r => rfl
@@ -316,19 +320,19 @@ theorem groupLinesGo_ne_nil (acc : List Chunk) (cs : List (Option Chunk)) (ch : 
 
 /-- joining the lines gives the chunk text back, for any chunk list that ends with a chunk -/
 theorem joinLines_groupLinesGo (acc : List Chunk) (cs : List (Option Chunk)) (ch : Chunk) :
-    joinLines (groupLinesGo acc (cs ++ [some ch])) = acc.flatten ++ text (cs ++ [some ch]) := by
+    joinLines (groupLinesGo acc (cs ++ [some ch])) = lineText acc ++ text (cs ++ [some ch]) := by
   induction cs generalizing acc with
-  | nil => simp [groupLinesGo, joinLines]
+  | nil => simp [groupLinesGo, joinLines, lineText]
   | cons x r ih =>
     cases x with
     | none =>
       simp only [List.cons_append, groupLinesGo, text_none]
       rw [joinLines_cons _ _ (groupLinesGo_ne_nil _ _ _), ih]
-      simp
+      simp [lineText]
     | some d =>
       simp only [List.cons_append, groupLinesGo, text_some]
       rw [ih]
-      simp
+      simp [lineText]
 
 /-- a line that has been closed by a marker is not affected by anything that follows -/
 theorem groupLinesGo_split (acc : List Chunk) (a b : List (Option Chunk)) :
